@@ -310,8 +310,11 @@ class TrackWorld(World):
         return r.choice(["x", "idx", "y"] if (not have or r.random() < 0.7) else list(NAMES))
 
     def _g_create(self, r, m):
-        return {"name": self._pick_name(r, m, False if r.random() < 0.7 else None),
-                "value": self._gen_value(r, len(m["obs"]))}
+        st = {"name": self._pick_name(r, m, False if r.random() < 0.7 else None),
+              "value": self._gen_value(r, len(m["obs"]))}
+        if r.random() < 0.1:
+            st["default_init"] = True
+        return st
 
     def _g_update(self, r, m):
         return {"name": self._pick_name(r, m, True), "value": self._gen_value(r, len(m["obs"]))}
@@ -788,7 +791,11 @@ class TrackWorld(World):
             raise Skip()
         v = self._value_ok(st, n)
         existed = st["name"] in m["names"]
-        _, exc = self.call(t.createAnalyticalFeature, st["name"], copy.copy(v))
+        if st.get("default_init"):
+            v = 0.0                                        # documented default initial value
+            _, exc = self.call(t.createAnalyticalFeature, st["name"])
+        else:
+            _, exc = self.call(t.createAnalyticalFeature, st["name"], copy.copy(v))
         if exc is not None:
             return self._unexpected("C01", exc, "createAnalyticalFeature")
         if existed:
@@ -1041,7 +1048,7 @@ class TrackWorld(World):
             args = (real_op, st["in1"], st["arg"]) if st.get("out") is None else (real_op, st["in1"], st["arg"], out)
         if out == st["in1"] or out == st.get("in2"):
             self.probe("operator_output_is_input")
-        rv, exc = self.call(t.operate, *args)
+        rv, exc = self.call(t.op if self.step_index % 5 == 0 else t.operate, *args)      # op is the documented alias
         if exc is not None:
             return self._unexpected("C01", exc, "operate(Operator.%s)" % opr)
         self._setcol(m, out, exp)
